@@ -16,7 +16,7 @@ VERSIONS = [None, "1", "2"]
 INCLUDES = [(), (1,), (1, 2), (2, 1), ("1",)]
 CALL_OPTS = [{}, {"x": 1}, {"x": 2}]
 DEF_OPTS = [{}, {"memory": 1}, {"memory": 2}]
-DECOS = [0, 1]
+DECOS = [0, 1, 2]  # 0: plain, 1: an extra decorator line, 2: the @task(...) call spread over several lines
 
 
 def module_text(defs):
@@ -29,8 +29,14 @@ def module_text(defs):
             kw.append(f"hash_includes={list(inc)!r}")
         for k, v in dopt.items():
             kw.append(f"{k}={v!r}")
-        lines.append(f"@task({', '.join(kw)})")
-        if deco:
+        if deco == 2:
+            lines.append("@task(")
+            for k_ in kw:
+                lines.append(f"    {k_},")
+            lines.append(")")
+        else:
+            lines.append(f"@task({', '.join(kw)})")
+        if deco == 1:
             lines.append("@noop")
         lines.append("def fn(x):")
         lines.append(f"    return x + {body}")
@@ -59,12 +65,17 @@ def work(arg):
         name, ns, body, ver, inc, dopt, deco = d
         code_id = ("ver", ver) if ver is not None else ("src", body)
         base_ident = (f"{ns}.{name}", code_id, tuple(sorted(map(repr, inc))))
-        for co in CALL_OPTS:
-            t2 = t.options(**co) if co else t
-            out.append(((base_ident, tuple(sorted(co.items())), None), t2.hash, repr(d) + f" call_opts={co}"))
+        variants = [(co, (t.options(**co) if co else t), f"call_opts={co}") for co in CALL_OPTS]
+        # the same overrides given through export_options(), alone and chained with options(), denote the same task identity
+        variants.append(({"x": 1}, t.export_options(x=1), "export_options(x=1)"))
+        variants.append(({"y": 2, "x": 1}, t.options(y=2).export_options(x=1), "options(y=2).export_options(x=1)"))
+        variants.append(({"y": 2, "x": 1}, t.options(y=2).options(x=1), "options(y=2).options(x=1)"))
+        variants.append(({"x": 1, "y": 2}, t.export_options(x=1).options(y=2), "export_options(x=1).options(y=2)"))
+        for co, t2, how in variants:
+            out.append(((base_ident, tuple(co.items()), None), t2.hash, repr(d) + " " + how))
             for bound in ((0,), (1,), (0, 0)):
                 p = t2.partial(*bound)
-                out.append(((base_ident, tuple(sorted(co.items())), ("partial", bound)), p.hash, repr(d) + f" call_opts={co} partial{bound}"))
+                out.append(((base_ident, tuple(co.items()), ("partial", bound)), p.hash, repr(d) + f" {how} partial{bound}"))
     return out
 
 
